@@ -21,6 +21,10 @@ pub struct Item {
     /// change the re-use setting just before this item
     #[serde(default)]
     pub set_reuse: Option<ReuseCfg>,
+    /// a failing encap call with this item's label just before it: 1 = PDU too long for the
+    /// 16-bit total length, 2 = buffer of 3 bytes (nothing is emitted, so nothing may change)
+    #[serde(default)]
+    pub failed_call_before: u8,
 }
 
 #[derive(Clone, Debug, PartialEq, Eq, Hash, Serialize, Deserialize)]
@@ -42,7 +46,8 @@ fn strategy(_t: Tier) -> BoxedStrategy<Case> {
     let extra = prop_oneof![3 => Just(0u32), 2 => Just(1u32), 2 => 2u32..=70000];
     let lab = prop_oneof![8 => lab_addr_or_bcast(), 1 => Just(Lab::ReUse)];
     let set = prop_oneof![6 => Just(None), 1 => reuse_cfg().prop_map(Some)];
-    let item = (len, pdu_seed(), lab, ptype_user(), any::<u8>(), buf, extra, set).prop_map(|(len, seed, lab, ptype, frag_id, buf, storage_extra, set_reuse)| Item { pdu: Pdu { len, seed }, lab, ptype, frag_id, buf, storage_extra, set_reuse });
+    let fail = prop_oneof![8 => Just(0u8), 1 => Just(1u8), 1 => Just(2u8)];
+    let item = (len, pdu_seed(), lab, ptype_user(), any::<u8>(), buf, extra, set, fail).prop_map(|(len, seed, lab, ptype, frag_id, buf, storage_extra, set_reuse, failed_call_before)| Item { pdu: Pdu { len, seed }, lab, ptype, frag_id, buf, storage_extra, set_reuse, failed_call_before });
     bx((reuse_cfg(), prop::collection::vec(item, 1..=6)).prop_map(|(reuse, items)| Case { reuse, items }))
 }
 
@@ -58,6 +63,32 @@ fn check(c: &Case, st: &mut Stats) -> Result<(), String> {
         if let Some(cfg) = it.set_reuse {
             apply_reuse(&mut enc, cfg);
             st.class("setting-changed-mid-stream");
+        }
+        if it.failed_call_before != 0 {
+            static LONG: std::sync::OnceLock<Vec<u8>> = std::sync::OnceLock::new();
+            let long = LONG.get_or_init(|| vec![0x5Cu8; 65534]);
+            let mut small = [0u8; 3];
+            let mut big = vec![0u8; 64];
+            let r = if it.failed_call_before == 1 { call_encap(&mut enc, long, it.frag_id, it.ptype, it.lab, &mut big) } else { call_encap(&mut enc, &pdu, it.frag_id, it.ptype, it.lab, &mut small) };
+            match r {
+                Ok(Err(_)) => st.class("failed-call-before-item"),
+                Ok(Ok(_)) => {} // 65534 bytes + broadcast/re-use label is legal: it fragments, nothing to do
+                Err(p) => return st.violation(&format!("panic {}", p.site()), format!("item {}: failing encap panicked: {}", i, p.0)),
+            }
+            if let Ok(Ok(EncapStatus::FragmentedPkt(n, _))) = &r {
+                // keep both sides in step: the first fragment that really went out is fed to the receiver
+                let n = (*n as usize).min(big.len());
+                if let Ok(Parsed::Packet(p, _)) = refcodec::parse(&big[..n], &mand_lookup) {
+                    match Lab::from_wire(p.lt, &p.label) {
+                        l @ (Lab::Six(_) | Lab::Three(_)) => eff = Some(l),
+                        Lab::Broadcast => eff = None,
+                        Lab::ReUse => {}
+                    }
+                }
+                let _ = dec.provision_storage(vec![0u8; 70000].into_boxed_slice());
+                let _ = call_decap(&mut dec, &big[..n]);
+                let _ = dec.memory.take_frag(it.frag_id);
+            }
         }
         let blen = it.buf.first(pdu.len(), it.lab.len(), 0);
         let mut buf = vec![0u8; blen];
@@ -187,7 +218,7 @@ pub fn property() -> Property {
             fuzz_decode: Some(crate::fuzzdec::c01_case),
             strategy,
             check,
-            required_classes: &["completed", "substituted", "gse_len>=4000", "buffer==packet", "storage>pdu", "buffer>4097", "explicit-reuse", "explicit-reuse-without-label", "encap-err"],
+            required_classes: &["completed", "substituted", "gse_len>=4000", "buffer==packet", "storage>pdu", "buffer>4097", "explicit-reuse", "explicit-reuse-without-label", "encap-err", "failed-call-before-item", "setting-changed-mid-stream"],
         })],
     }
 }
